@@ -32,6 +32,12 @@ from vf.cli import WorkerResult
 from vf.oracles import harm
 from vf.props.c12 import listing, oracle_by_degree, oracle_by_size
 
+
+def _gt(a, b):
+    """a > b that is also True when a is NaN (a silent NaN must never pass a tolerance test)."""
+    return ~(np.asarray(a) <= np.asarray(b))
+
+
 LEVEL = "exploration"
 RULE = (
     "product radial grid x degree/size sequence x method x centre x rotation seed (structure), "
@@ -63,6 +69,10 @@ def rgrids():
             "becke-gl4": BeckeRTransform(0.0, 1.5).transform_1d_grid(GaussLegendre(4)),
             "linear-gc5": LinearFiniteRTransform(0.1, 3.0).transform_1d_grid(GaussChebyshev(5)),
             "linear-cc6-r0": LinearFiniteRTransform(0.0, 2.0).transform_1d_grid(ClenshawCurtis(6)),
+            # radial nodes need not be ascending (a reversed grid, what a decreasing map returns, a core
+            # grid followed by a valence grid): added after seeded change C05-B was missed
+            "descending5": OneDGrid(np.array([2.6, 1.5, 0.9, 0.35, 0.1]), np.array([0.9, 0.6, 0.4, 0.2, 0.1]), (0, np.inf)),
+            "unsorted5": OneDGrid(np.array([0.2, 0.6, 1.1, 0.05, 2.4]), np.array([0.2, 0.4, 0.5, 0.1, 0.8]), (0, np.inf)),
         }
 
 
@@ -104,19 +114,19 @@ def check_shells(res, tag, case, g, rg, exp_degrees, method, centre, rotate, che
         X = pts[lo:hi] - np.asarray(centre)
         res.nontrivial()
         ew = rg.weights[i] * r * r * aw
-        if np.max(np.abs(w[lo:hi] - ew)) > 1e-14 * (np.max(np.abs(ew)) + 1e-300) + 1e-300:
+        if _gt(np.max(np.abs(w[lo:hi] - ew)), 1e-14 * (np.max(np.abs(ew)) + 1e-300) + 1e-300):
             res.violation(f"{tag}:weights-not-w-r2-angular", f"shell {i} (r={r:.4g}): weights differ from w_i r_i^2 x angular weights by "
                           f"{np.max(np.abs(w[lo:hi] - ew)):.3e}", dict(case, shell=i))
             ok = False
         if r == 0.0:
-            if np.max(np.abs(X)) > 1e-15:
+            if _gt(np.max(np.abs(X)), 1e-15):
                 res.violation(f"{tag}:r0-shell-not-at-centre", f"shell {i} at r=0 is not at the centre", dict(case, shell=i))
                 ok = False
             continue
         U = X / r
         cscale = 1.0 + np.max(np.abs(centre)) / r
         if rotate == 0:
-            if np.max(np.abs(U - A)) > 4e-16 * cscale * 4:
+            if _gt(np.max(np.abs(U - A)), 4e-16 * cscale * 4):
                 res.violation(f"{tag}:points-not-centre-plus-r-times-unit-grid",
                               f"shell {i} (r={r:.4g}): points differ from centre + r_i x unit grid by {np.max(np.abs(U - A)) * r:.3e}",
                               dict(case, shell=i))
@@ -125,7 +135,7 @@ def check_shells(res, tag, case, g, rg, exp_degrees, method, centre, rotate, che
             Q, *_ = np.linalg.lstsq(A, U, rcond=None)
             resid = np.max(np.abs(A @ Q - U))
             orth = np.max(np.abs(Q.T @ Q - np.eye(3)))
-            if resid > 1e-13 * cscale or orth > 1e-12 * cscale or abs(np.linalg.det(Q) - 1) > 1e-12 * cscale:
+            if _gt(resid, 1e-13 * cscale) or _gt(orth, 1e-12 * cscale) or _gt(abs(np.linalg.det(Q) - 1), 1e-12 * cscale):
                 res.violation(f"{tag}:shell-not-orthogonal-image-of-unit-grid",
                               f"shell {i} (r={r:.4g}, rotate={rotate}): residual {resid:.2e}, |QtQ-I| {orth:.2e}, det {np.linalg.det(Q):.6f}",
                               dict(case, shell=i))
@@ -175,7 +185,7 @@ def _struct_case(arg):
     res.count(3)
     if not (np.array_equal(g.points, g2.points) and np.array_equal(g.weights, g2.weights)):
         res.violation(f"{tag}:not-reproducible-from-seed", f"two builds with rotate={rotate} differ", case)
-    if np.max(np.abs((g.points - centre) - g0.points)) > 4e-16 * (1 + np.max(np.abs(centre))) * 4 or not np.array_equal(g.weights, g0.weights):
+    if _gt(np.max(np.abs((g.points - centre) - g0.points)), 4e-16 * (1 + np.max(np.abs(centre))) * 4) or not np.array_equal(g.weights, g0.weights):
         res.violation(f"{tag}:centre-does-not-only-translate", "moving the centre changes relative points or weights", case)
     if rotate:
         with warnings.catch_warnings():
@@ -183,7 +193,7 @@ def _struct_case(arg):
             gn = AtomGrid(rg, center=centre, rotate=0, method=method, **kw)
         rr = np.linalg.norm(g.points - centre, axis=1)
         rn = np.linalg.norm(gn.points - centre, axis=1)
-        if not np.array_equal(g.weights, gn.weights) or np.max(np.abs(rr - rn)) > 1e-14 * (1 + np.max(rn)):
+        if not np.array_equal(g.weights, gn.weights) or _gt(np.max(np.abs(rr - rn)), 1e-14 * (1 + np.max(rn))):
             res.violation(f"{tag}:rotation-changes-radii-or-weights", f"rotate={rotate} changes radii or weights", case)
         if np.array_equal(g.points, gn.points) and len(set(exp)) and any(r > 0 for r in rg.points):
             res.violation(f"{tag}:rotation-has-no-effect", f"rotate={rotate} gives the unrotated grid", case)
@@ -199,9 +209,9 @@ def _struct_case(arg):
             lo, hi = g.indices[i], g.indices[i + 1]
             A, aw, _ = unit_grid(method, exp[i])
             ew = g.weights[lo:hi] if r_sq else rg.weights[i] * aw
-            if s.points.shape != (hi - lo, 3) or np.max(np.abs(s.points - (g.points[lo:hi] - centre))) > 4e-15 * (1 + np.max(np.abs(centre))):
+            if s.points.shape != (hi - lo, 3) or _gt(np.max(np.abs(s.points - (g.points[lo:hi] - centre))), 4e-15 * (1 + np.max(np.abs(centre)))):
                 res.violation(f"{tag}:shell-grid-points", f"get_shell_grid({i}) points are not that shell's centre-relative points", dict(case, shell=i))
-            if np.max(np.abs(s.weights - ew)) > 1e-14 * (np.max(np.abs(ew)) + 1e-300) + 1e-300:
+            if _gt(np.max(np.abs(s.weights - ew)), 1e-14 * (np.max(np.abs(ew)) + 1e-300) + 1e-300):
                 res.violation(f"{tag}:shell-grid-weights:r_sq={r_sq}", f"get_shell_grid({i}, r_sq={r_sq}) weights differ", dict(case, shell=i))
     # factorised integrals of g(r) Y_lm for l <= min degree
     lmin = int(min(exp))
@@ -223,7 +233,7 @@ def _struct_case(arg):
             got = float(np.sum(g.weights * gr * y[row]))
             ref = radial * np.sqrt(4 * np.pi) if row == 0 else 0.0
             res.nontrivial()
-            if abs(got - ref) > 1e-10 * (tot + abs(ref)):
+            if _gt(abs(got - ref), 1e-10 * (tot + abs(ref))):
                 l, m = harm.horton_lm(lcap)[row]
                 res.violation(f"{tag}:integral-does-not-factorise", f"integral of g_{si}(r) Y_({l},{m}) = {got!r}, expected {ref!r}",
                               dict(case, l=l, m=m))
@@ -301,6 +311,11 @@ def _preset_case(arg):
             builds.append(("prescribed-size", PowerRTransform(1e-3 * (1 + lattice.jitter(seed, "rm", 0, 0.3)), rmax).transform_1d_grid(UniformInteger(nrad))))
         else:
             builds.append(("given-rgrid", PowerRTransform(1e-3, 25.0).transform_1d_grid(UniformInteger(40))))
+            if z % 7 == 1:
+                from grid.basegrid import OneDGrid
+
+                asc = PowerRTransform(1e-2, 12.0).transform_1d_grid(UniformInteger(24))
+                builds.append(("descending-rgrid", OneDGrid(asc.points[::-1].copy(), asc.weights[::-1].copy(), (0, np.inf))))
             if z in _DEFAULT_POWER_RTRANSFORM_PARAMS:
                 builds.append(("default-rgrid", None))
     for bname, rg in builds:
@@ -367,8 +382,8 @@ def run(ctx):
             for seq in seqs[:: max(1, len(seqs) // 12)]:
                 jobs.append(("s", (rname, method, "sizes", seq, 1, 2, ctx.seed)))
     # from_pruned: boundaries relative to the nodes
-    for rname in ("becke-gl4", "explicit3-r0"):
-        pts = rg[rname].points / 1.3
+    for rname in ("becke-gl4", "explicit3-r0", "descending5", "unsorted5"):
+        pts = np.sort(rg[rname].points) / 1.3
         mids = [0.5 * pts[0] if pts[0] > 0 else -0.1] + [0.5 * (a + b) for a, b in zip(pts[:-1], pts[1:])] + [pts[-1] * 1.5]
         cands = sorted(set(np.round(mids, 6)) | {float(pts[1])})  # one boundary exactly on a node (tie)
         for method, alpha in DEG_ALPHABET.items():
